@@ -174,6 +174,10 @@ def main():
         if pid not in registry.PROPS or pid not in CLAIMS:
             continue
         cat, text, note = CLAIMS[pid]
+        if pid in ("C02", "C03", "C04", "C05", "C06", "C07", "C14", "C10"):
+            text += (" Since the third seeding round the check also runs every lemma whose function this property's statement depends on "
+                     "(all mirroring / dispatch lemmas for C02-C04, conflict lemmas for C05/C02, event-intake lemmas for C06/C07/C14, "
+                     "re-read lemmas for C14/C02/C10); LEMMAS.md lists them per property.")
         checks.append({
             "property_id": pid,
             "quick_cmd": "./check %s --tier quick" % pid,
